@@ -287,8 +287,8 @@ fn open_gate(env: &Env, uid: u64) {
     env.ctx.gates.open(uid);
 }
 
-fn encode(p: &Plan) -> Vec<u8> {
-    let mut r = mk_req(p.kind.path(), p.uid, p.size, p.k, p.step_us);
+fn encode(p: &Plan, inst: u64) -> Vec<u8> {
+    let mut r = mk_req(inst, p.kind.path(), p.uid, p.size, p.k, p.step_us);
     if p.kind == Kind::GatedPost {
         r.method = "POST".into();
         r = r.body(&[b'x'; 64]);
@@ -324,7 +324,7 @@ fn client(p: &Plan, env: &Env) -> COut {
     } else if p.slow_reader {
         small_rcvbuf(&conn, 128 << 10);
     }
-    let bytes = encode(p);
+    let bytes = encode(p, env.ctx.instance);
     let log = env.log;
     let uid = p.uid;
     macro_rules! send_or_bail {
@@ -411,7 +411,7 @@ fn client(p: &Plan, env: &Env) -> COut {
             if p.kind == Kind::PanicPipe {
                 let u2 = p.uid2.unwrap();
                 open_gate(env, u2);
-                all.extend_from_slice(&mk_req("/gated", u2, 64, 0, 0).encode());
+                all.extend_from_slice(&mk_req(env.ctx.instance, "/gated", u2, 64, 0, 0).encode());
             }
             log.push("C_SEND", uid, all.len() as i64, "");
             send_or_bail!(&all);
@@ -438,7 +438,7 @@ fn client(p: &Plan, env: &Env) -> COut {
                 } else if ok {
                     // keep-alive follow-up on the same connection
                     open_gate(env, u2);
-                    let b2 = mk_req("/gated", u2, 333, 0, 0).encode();
+                    let b2 = mk_req(env.ctx.instance, "/gated", u2, 333, 0, 0).encode();
                     log.push("C_SEND", u2, b2.len() as i64, "keepalive-2nd");
                     if conn.send(&b2).is_ok() {
                         let o2 = read_and_verify(&mut conn, u2, 333, WD_READ);
@@ -464,7 +464,7 @@ fn health(env: &Env) -> Result<(), (bool, String)> {
             format!("connect: {e}"),
         )
     })?;
-    c.send(&mk_req("/gated", uid, 200, 0, 0).encode())
+    c.send(&mk_req(env.ctx.instance, "/gated", uid, 200, 0, 0).encode())
         .map_err(|e| (false, format!("send: {e}")))?;
     let o = read_and_verify(&mut c, uid, 200, WD_OBSERVE);
     env.log.push("C_HEALTH", uid, 0, &o.tag());
@@ -823,10 +823,19 @@ pub fn run_shard(seed: u64, shard: u64, nshards: u64, total: u64, quick: bool) -
 
 pub fn finish(out: &mut Out) {
     let mut by: BTreeMap<String, u64> = BTreeMap::new();
+    let mut pairs = 0u64;
     for s in &out.inter {
+        if s.starts_with("pair|") {
+            pairs += 1;
+            continue;
+        }
         let key: Vec<&str> = s.split('|').take(3).collect();
         *by.entry(key.join("|")).or_insert(0) += 1;
     }
+    out.rep.extra.insert(
+        "distinct_victim_vs_nonvictim_orderings".into(),
+        json!(pairs),
+    );
     out.rep.extra.insert("distinct_interleavings".into(), json!(out.inter.len()));
     out.rep.extra.insert("distinct_orderings_by_mode_phase_style".into(), json!(by));
     out.rep.extra.insert("max_observed_concurrency".into(), json!(out.maxc));
